@@ -64,8 +64,10 @@ func (v *Voting[_, _]) outcomeIndex(numRequiredVotes int) (int, bool) {
 	for _, vote := range v.Votes {
 		numVotes[vote]++
 	}
-	for index, votes := range numVotes {
-		if votes >= numRequiredVotes {
+	// iterate over the candidate indices in order, the result must not depend on map iteration order
+	for index := range v.Candidates {
+		votes, ok := numVotes[index]
+		if ok && votes >= numRequiredVotes {
 			return index, true
 		}
 	}
